@@ -95,7 +95,7 @@ def _prune_cache(keep):
         shutil.rmtree(p, ignore_errors=True)
 
 
-def build_facts(configs=("asbuilt",), repo=REPO, verbose=False, cache_root=None, cdb_from=None):
+def build_facts(configs=("asbuilt",), repo=REPO, verbose=False, cache_root=None, cdb_from=None, reuse=None):
     """Return the directory holding <config>/<unit>.json for the current tree, building it if needed.
 
     cache_root / cdb_from are used by the self-validation: facts of a mutated scratch copy are kept inside the
@@ -132,6 +132,17 @@ def build_facts(configs=("asbuilt",), repo=REPO, verbose=False, cache_root=None,
             os.makedirs(os.path.join(d, cfg), exist_ok=True)
             for u in units:
                 out = os.path.join(d, cfg, os.path.relpath(u, repo).replace("/", "__") + ".json")
+                if not os.path.exists(out) and reuse is not None:
+                    # reuse = (facts dir of the unmodified tree, set of changed files): a unit that includes none of the
+                    # changed files has identical facts (all paths in the facts are relative to the repository root)
+                    src = os.path.join(reuse[0], cfg, os.path.basename(out))
+                    if os.path.exists(src):
+                        try:
+                            deps = set(json.load(open(src)).get("deps", ["*"]))
+                        except ValueError:
+                            deps = {"*"}
+                        if "*" not in deps and deps and not (deps & set(reuse[1])):
+                            os.symlink(src, out)
                 if not os.path.exists(out):
                     jobs.append((cdb, u, cfg, CONFIGS[cfg], out, repo))
         if jobs:
